@@ -7,6 +7,8 @@
      Sheet.row_iter                 unpacker.instance_iter(sheet.name); loader.header; Row per instance
                                     (Model/HeaderRow.v [row_iter] for the list-of-cells instances)
      set_schema                     binds the schema AND installs the do-nothing loader
+                                    (Gen/HeaderRowParams.v set_schema_resets_loader; the rules of row_iter, the
+                                    loaders and WBNav are read from the source: see Model/HeaderRow.v)
      Row.__init__                   unpacker.nav(sheet.schema, instance): AttributeError without a schema
      CSVUnpacker / JSONUnpacker     sheet_iter yields the empty name only; instance_iter ignores the name
      COBOL_Text_File                TextUnpacker: sheet_iter yields the empty name; instances = the lines of
@@ -166,19 +168,36 @@ Definition read_header (c : content) (probes : list (list key)) : obs :=
   read_sheets_header c (sheet_names c) probes 0.
 
 (* ---- explicit binding: sheet.set_schema(schema); the loader is the do-nothing loader ----
-   Sheet.row_iter with that loader, for instances of any type.  On list-of-cells instances it is
+   Sheet.row_iter with that loader, for instances of any type: HeaderRow.sheet_row_iter (the rules of
+   Gen/HeaderRowParams.v) with SchemaLoader.header (None, nothing consumed) and SchemaLoader.body.  [keep p x] says
+   whether the condition p of a filtering body() holds for the instance x.  On list-of-cells instances it is
    HeaderRow.row_iter NoLoader (Proofs/WorkbookP.v rows_preset_is_row_iter). *)
-Definition rows_preset {S I} (preset : option S) (src : list I) : res (list I) :=
+Definition rows_preset {S I} (keep : body_pred -> I -> bool) (preset : option S) (src : list I) : res (list I) :=
+  bind (sheet_row_iter keep (fun it => Ok (None, it)) body_base preset src) (fun sr => Ok (snd sr)).
+
+(* a str, bytes or dict instance under a filtering body(): kept when it is not empty (exact for the condition
+   P_nonempty; for the any(...) conditions an approximation - no loader of the unchanged source filters) *)
+Definition keep_nonempty {A} (_ : body_pred) (x : list A) : bool := match x with [] => false | _ => true end.
+
+(* COBOL_EBCDIC_Sheet.row_iter does not go through the loader: every record becomes a Row *)
+Definition rows_plain {S I} (preset : option S) (src : list I) : res (list I) :=
   match src, preset with
   | _ :: _, None => Err AttributeError
   | _, _ => Ok src
   end.
 
-(* DNav.name(k).value() *)
+(* DNav.name(k).value(): properties[k], then the member of the document - instance[k] or instance.get(k)
+   (Gen/HeaderRowParams.v dnav_missing) *)
+Definition dnav_absent : value :=
+  match dnav_missing with
+  | DM_key_error => Err KeyError
+  | DM_none => Ok (Some none_obj)
+  end.
+
 Definition dnav_name (s : schema) (k : key) (d : doc) : value :=
   match find_entry s k with
   | None => Err KeyError
-  | Some _ => match lookup d k with Some v => Ok (Some v) | None => Err KeyError end
+  | Some _ => match lookup d k with Some v => Ok (Some v) | None => dnav_absent end
   end.
 
 Definition json_instances (c : content) : res (list doc) :=
@@ -190,7 +209,7 @@ Definition read_json (c : content) (probes : list (list key)) : obs :=
   map (fun n =>
          (n, bind (json_instances c) (fun docs =>
              let ks := probes_at probes 0 in
-             bind (rows_preset (Some (hand_schema ks)) docs) (fun rows =>
+             bind (rows_preset keep_nonempty (Some (hand_schema ks)) docs) (fun rows =>
              Ok (map (fun d => map (fun k => dnav_name (hand_schema ks) k d) ks) rows)))))
       (sheet_names c).
 
@@ -259,7 +278,7 @@ Definition text_value (l : layout) (k : key) (line : list N) : value :=
 
 (* COBOL_Text_File(path).sheet_iter() -> set_schema(schema) -> rows() -> name(k).value() *)
 Definition read_fixed (file : list N) (l : layout) (probes : list key) : obs :=
-  [([], bind (rows_preset (Some l) (text_lines file)) (fun rows =>
+  [([], bind (rows_preset keep_nonempty (Some l) (text_lines file)) (fun rows =>
          Ok (map (fun line => map (fun k => text_value l k line) probes) rows)))].
 
 (* ---- COBOL_EBCDIC_File ---- *)
@@ -302,7 +321,7 @@ Definition ebcdic_records (r : recfm) (kind : N) (wb_lrecl : option nat) (l : la
 Definition read_ebcdic (r : recfm) (kind : N) (wb_lrecl : option nat) (file : list N) (l : layout)
   (probes : list key) : obs :=
   [([], bind (ebcdic_records r kind wb_lrecl l file) (fun recs =>
-         bind (rows_preset (Some l) recs) (fun rows =>
+         bind (rows_plain (Some l) recs) (fun rows =>
          Ok (map (fun rec => map (fun k => ebcdic_value l k rec) probes) rows))))].
 
 (* ------------------------------------------------------------------ abstract tables and files
